@@ -92,7 +92,11 @@ class Corr(Job):
         # info: inputs outside every property's domain (extreme magnitudes): a difference is recorded in the evidence, never reported.
         # risky: a chain in which an inner view's rounding residue can push the outer view out of its domain (ln / division of a
         # value that is 0 only up to rounding): whether the finiteness `debug_assert!` fires there is not comparable with the model
-        self.info, self.risky = info, risky
+        self.info = info
+        # any tree in which a Divide / LnReturn / Drawdown sits over a sub-view that can report 0 (or a non-positive value) up to
+        # rounding is risky in this sense, whoever generated it (harmless rewrite H03: an exact 0 std on a flat window where the
+        # original leaves 1e-13 of residue makes `Divide`'s assertion fire)
+        self.risky = risky or not gen.domain_safe(e)
 
     def case(self):
         return Case(self.mode, gen.render(self.e, self.mode), self.ops)
